@@ -80,7 +80,7 @@ func genC18Derive(t *rapid.T) c18Derive {
 		c.Path = append(c.Path, genIndex(t))
 	}
 	c.Depth = uint8(rapid.SampledFrom([]int{0, 0, 0, 1, 3, 200, 250}).Draw(t, "depth"))
-	c.Bad = rapid.SampledFrom([]string{"", "", "", "", "", "hardened", "hardened-max", "depth255", "off-curve"}).Draw(t, "bad")
+	c.Bad = rapid.SampledFrom([]string{"", "", "", "", "", "hardened", "hardened-mid", "hardened-max", "depth255", "depth-overflow", "off-curve", "identity-parent", "y-minus-p", "minus-y", "x-plus-p"}).Draw(t, "bad")
 	c.ShortAt = -1
 	if n > 0 && rapid.IntRange(0, 3).Draw(t, "shortchild") == 0 {
 		c.ShortAt = rapid.IntRange(0, n-1).Draw(t, "shortat")
@@ -166,8 +166,28 @@ func runC18Derive(c c18Derive) ev.Outcome {
 		if len(path) == 0 {
 			path = []uint32{0}
 		}
+	case "hardened-mid": // a hardened index in the middle of the path
+		path = append(append(append([]uint32{}, path...), 1<<31+7), 0, 1)
+	case "depth-overflow": // the path runs past depth 255
+		depth = 254
+		rp.Depth = 254
+		path = []uint32{0, 1, 2}
 	case "off-curve":
 		py = add(py, 1)
+		if len(path) == 0 {
+			path = []uint32{0}
+		}
+	case "identity-parent", "y-minus-p", "minus-y", "x-plus-p": // parents that are not valid points in canonical form
+		switch c.Bad {
+		case "identity-parent":
+			px, py = big.NewInt(0), big.NewInt(0)
+		case "y-minus-p":
+			py = new(big.Int).Sub(py, ref.Secp.P)
+		case "minus-y":
+			py = new(big.Int).Neg(py)
+		case "x-plus-p":
+			px = new(big.Int).Add(px, ref.Secp.P)
+		}
 		if len(path) == 0 {
 			path = []uint32{0}
 		}
@@ -182,6 +202,16 @@ func runC18Derive(c c18Derive) ev.Outcome {
 	if c.Bad != "" {
 		if err == nil {
 			return fail("refusal-missing:"+c.Bad, "derivation accepted %s (path %v depth %d)", c.Bad, path, depth)
+		}
+		// the single-step entry point refuses the same first step when the parent / first index is the bad part
+		if c.Bad == "off-curve" || c.Bad == "identity-parent" || c.Bad == "y-minus-p" || c.Bad == "minus-y" || c.Bad == "x-plus-p" || c.Bad == "depth255" {
+			var e1 error
+			if p := mustNoPanic(func() { _, _, e1 = ckd.DeriveChildKey(path[0], parent, curve) }); p != nil {
+				return fail("panic", "DeriveChildKey panicked on %s: %v", c.Bad, p)
+			}
+			if e1 == nil {
+				return fail("refusal-missing:"+c.Bad, "DeriveChildKey accepted %s", c.Bad)
+			}
 		}
 		return out
 	}
